@@ -7,7 +7,8 @@ from .c08 import gen_chatter
 PROFILE = dict(reuse=0.6, weights=dict(repeat=4, newer=4, delete=14, bind=12, message=48, server_event=8, sync=6, enum=8, title=6))
 PROMPT = b'wl debug $ '
 MARKER = 'WDV-CHILD-STDOUT-MARKER %d\n'
-ARGS = ['-f', '-r', '--gdb', '-g', '-l', 'x', '', ' ', 'a b', '"q"', "it's", '\\', '--run', '-p', '-C', '--', '-h', '*', '$HOME', 'é', '-b', '!', '--supress']
+ARGS = ['-f', '-r', '--gdb', '-g', '-l', 'x', '', ' ', 'a b', '"q"', "it's", '\\', '--run', '-p', '-C', '--', '-h', '*', '$HOME', 'é', '-b', '!', '--supress',
+        '--matcher-help', '--help', '--verbose', '--color', '--libwayland', '--no-color']
 
 
 def gen_chunks(d, data):
@@ -54,7 +55,7 @@ class Modes(Stage):
         data = text.encode('utf-8').replace('\ue000'.encode('utf-8'), b'\xff')
         return dict(text=text, chunks=[gen_chunks(d, data), gen_chunks(d, data)], exit=d.choice([0, 0, 1, 2, 7, 99, 127, 255, d.int(0, 255)]),
                     argv=[d.choice(ARGS) for _ in range(d.int(0, 5))], marker=d.int(0, 9999), supress=d.chance(0.2), filter=d.choice([None, None, 'wl_display', '* ! .bind']),
-                    linger=d.choice([0, 0, 0, 0, 0, 0, 0, 1.3]), no_stdin=d.chance(0.3), slow_pipe=d.choice([None, None, None, None, None, None, [1.4, 0.0], [0.0, 1.2], [1.3, 0.3]]), nmsg=len(specs), hashseeds=[d.int(0, 4000) for _ in range(4)], exe=d.choice([None, None, None, 'child prog', 'a "b" c', 'back\\slash', 'x y z']), brk=d.choice([None, None, None, '.sync', 'wl_registry, wl_display', '*', 'wl_display ! .sync', '.bind']), parent_wayland_debug=d.choice([None, None, '1', 'client', 'server', '0', '']))
+                    linger=d.choice([0, 0, 0, 0, 0, 0, 0, 1.3]), libwayland=d.chance(0.2), no_stdin=d.chance(0.3), slow_pipe=d.choice([None, None, None, None, None, None, [1.4, 0.0], [0.0, 1.2], [1.3, 0.3]]), nmsg=len(specs), hashseeds=[d.int(0, 4000) for _ in range(4)], exe=d.choice([None, None, None, 'child prog', 'a "b" c', 'back\\slash', 'x y z']), brk=d.choice([None, None, None, '.sync', 'wl_registry, wl_display', '*', 'wl_display ! .sync', '.bind']), parent_wayland_debug=d.choice([None, None, '1', 'client', 'server', '0', '']))
 
     def execute(self, case):
         res = Result()
@@ -117,6 +118,12 @@ class Modes(Stage):
             # program's exit status is still handed on
             run_stdin = b'r\n' * (case['nmsg'] + 2 if case.get('brk') else 0) + (b'' if case.get('no_stdin') else b'q\n')
             marker = (MARKER % case['marker'])
+            run_opts = list(opts)
+            if case.get('libwayland'):
+                # a directory with (supposedly) the libwayland to use, given before the marker: it goes into the program's
+                # LD_LIBRARY_PATH; everything else about the program's start stays as it is
+                os.makedirs(sc.path('libwl dir'), exist_ok=True)
+                run_opts = ['--libwayland', sc.path('libwl dir')] + run_opts
             outs = []
             for k, chunks in enumerate(case['chunks']):
                 report = sc.path('report%d.json' % k)
@@ -125,12 +132,12 @@ class Modes(Stage):
                 extra = dict(hs[2 + k], WDV_CHILD_SPEC=spec)
                 if case.get('parent_wayland_debug') is not None:
                     extra['WAYLAND_DEBUG'] = case['parent_wayland_debug']     # wayland-debug itself started from such an environment
-                rc, out, err = cli.run_main(opts + ['-r'] + command + case['argv'], stdin=run_stdin, extra_env=extra)
+                rc, out, err = cli.run_main(run_opts + ['-r'] + command + case['argv'], stdin=run_stdin, extra_env=extra)
                 res.evals += 1
                 if b'Failed to join subprocess thread' in err and linger:
                     # the program closed its stderr and exited 1.3 s later: the tool must wait for it and hand on its exit status.
                     # Confirm once more before calling it a violation (wall-clock effects must not raise an alarm)
-                    rc2, out2, err2 = cli.run_main(opts + ['-r'] + command + case['argv'], stdin=run_stdin, extra_env=extra)
+                    rc2, out2, err2 = cli.run_main(run_opts + ['-r'] + command + case['argv'], stdin=run_stdin, extra_env=extra)
                     if rc2 != case['exit']:
                         res.bad('exit-status:lingering-program', 'program closed stderr, exited %d after 1.3 s; wayland-debug exited with %r twice (stderr %r)' % (case['exit'], rc2, err2[-200:]))
                     continue
@@ -147,6 +154,8 @@ class Modes(Stage):
                     res.bad('program-argv', 'started with %r, expected %r' % (rep['argv'], case['argv']))
                 if rep['wayland_debug'] != '1':
                     res.bad('wayland-debug-env', repr(rep['wayland_debug']))
+                if case.get('libwayland') and sc.path('libwl dir') not in (rep.get('ld') or '').split(':'):
+                    res.bad('libwayland-dir-not-handed-on', 'LD_LIBRARY_PATH of the program is %r' % rep.get('ld'))
                 if rc != case['exit']:
                     res.bad('exit-status', 'program exited with %d, wayland-debug with %r (stderr %r)' % (case['exit'], rc, err[-200:]))
                 mb = marker.encode()
@@ -156,8 +165,14 @@ class Modes(Stage):
                 outs.append(out)
                 if out != out_f:
                     res.bad('run-vs-file-display', 'chunking %d: %s' % (k, first_diff(out_f, out)))
-                if err != err_f:
-                    res.bad('run-vs-file-stderr', 'chunking %d: %s' % (k, first_diff(err_f, err)))
+                if case.get('libwayland'):
+                    # the notices about where libwayland is (not) found differ with the option; they are not part of the display
+                    drop = lambda e: b'\n'.join(l for l in e.split(b'\n') if b'libwayland' not in l and b'Wayland client library' not in l and b'Wayland server library' not in l)
+                    err, err_f_cmp = drop(err), drop(err_f)
+                else:
+                    err_f_cmp = err_f
+                if err != err_f_cmp:
+                    res.bad('run-vs-file-stderr', 'chunking %d: %s' % (k, first_diff(err_f_cmp, err)))
             if len(outs) == 2 and outs[0] != outs[1]:
                 res.bad('chunking-changes-display', first_diff(outs[0], outs[1]))
         nl = case['text'].count('\n')
@@ -168,6 +183,7 @@ class Modes(Stage):
         if not case['text'].endswith('\n'): res.label('no-final-newline')
         if any(ord(c) > 127 for c in case['text']): res.label('multi-byte')
         if '\ue000' in case['text']: res.label('undecodable-byte-in-chatter')
+        if case.get('libwayland'): res.label('with --libwayland DIR')
         if case.get('no_stdin'): res.label('nobody-at-the-prompt')
         if case.get('slow_pipe'): res.label('slow-producer-on-the-pipe')
         if case.get('brk'): res.label('with -b')
